@@ -265,6 +265,8 @@ def compare(trace_path, model_path):
             op, _, impl = tl.partition("\t")
             model, _, verdict = ml.partition("\t")
             kind = None
+            if impl in ("skipped", "skipped-after-hangs"):
+                continue    # not executed: the hang that caused it is reported on its own line
             if impl != model:
                 kind = "impl!=model"
             if verdict.startswith("bad"):
@@ -287,15 +289,24 @@ def eval_case(h, stream, case_ops, work, tag="shrink"):
     md_p = os.path.join(work, tag + ".model")
     st_p = os.path.join(work, tag + ".stats")
     open(ops_p, "w").write("\n".join(case_ops) + "\n")
-    run_impl(h, stream, ops_p, tr_p, st_p, timeout_ms=int(os.environ.get("VERIF_SHRINK_TIMEOUT_MS", "60000")))
+    run_impl(h, stream, ops_p, tr_p, st_p, timeout_ms=int(os.environ.get("VERIF_SHRINK_TIMEOUT_MS", "60000" if tag in ("final", "replay", "corpus") else "20000")))
     run_model(stream, tr_p, md_p)
     _, issues = compare(tr_p, md_p)
     return issues, open(tr_p).read().splitlines(), open(md_p).read().splitlines()
 
 
+SHRINK_ARGS = {}
+
+
 def shrink(h, stream, case_ops, work, is_bad):
     """Delta-debug the op list (the reset line is kept) while some issue satisfying `is_bad` persists."""
+    # wall-clock budget: a violated check must still answer within minutes (slow re-executions: race-detector
+    # builds, big structures); when it is used up the smallest failing case found so far is reported
+    deadline = time.time() + float(os.environ.get("VERIF_SHRINK_BUDGET_S", "60"))
+
     def fails(ops):
+        if time.time() > deadline:
+            return False
         issues, _, _ = eval_case(h, stream, ops, work)
         return any(is_bad(x) for x in issues)
     head, body = case_ops[:1], case_ops[1:]
@@ -336,9 +347,12 @@ def shrink(h, stream, case_ops, work, is_bad):
     budget = 150
     for li in range(len(ops)):
         toks = ops[li].split(" ")
-        if len(toks) <= 5:
+        # only for ops declared (props/Cxx.json "shrink_args": {stream: {op: number of leading arguments to keep}})
+        # to end in a homogeneous list of values: dropping tokens anywhere else makes ill-formed lines
+        keep = (SHRINK_ARGS.get(stream) or {}).get(toks[0])
+        if keep is None or len(toks) <= keep + 3:
             continue
-        op, args = toks[:1], toks[1:]
+        op, args = toks[:1 + keep], toks[1 + keep:]
         n = 2
         while len(args) >= 2 and budget > 0:
             chunk = max(1, len(args) // n)
@@ -384,6 +398,7 @@ def main():
     P = load_json(os.path.join(VERIF, "props", pid + ".json"))
     if P is None:
         raise SystemExit("unknown property " + pid)
+    SHRINK_ARGS.update(P.get("shrink_args") or {})
     t0 = time.time()
     # scratch directories of runs that were killed (their process is gone) are removed first
     wroot = os.path.join(VERIF, "work")
